@@ -15,7 +15,10 @@ def handle (req : Sexp) : Sexp :=
         let out := layout cfg d
         .list [encodeSDocs out, ofStr "text" (render out)])
     | _, _ => sym "bad-request"
-  | .list (.atom "render" :: _) => sym "bad-request"
+  | .list [.atom "chk", strict, d, out] =>
+    match nat? strict, decodeDoc d, decodeSDocs out with
+    | some st, some d, some out => .list [sym "ok", ofNat (if checkLay (st == 1) d out then 1 else 0)]
+    | _, _, _ => sym "bad-request"
   | _ => sym "bad-request"
 
 partial def loop (hin : IO.FS.Stream) (hout : IO.FS.Stream) : IO Unit := do
